@@ -3,7 +3,9 @@
 EXTENDS Convert, Json
 
 CONSTANTS ShapeC, D, AllOrders,
-          Rich       \* TRUE: every mode split; FALSE (chains): a few
+          Rich,      \* TRUE: every mode split; FALSE (chains): a few
+          KOnly      \* TRUE: only Kruskal / Tucker / sum-of-Kruskal objects (used for orders >= 5, where the
+                     \* Khatri-Rao grouping inside Kruskal -> dense conversion has three or more factors per group)
 
 VARIABLES hist, init0, pres
 vars == <<obj, hist, init0, pres>>
@@ -42,6 +44,8 @@ SumInits ==
        [kind |-> "sum", parts |-> <<s, LabelT(ShapeC), LabelK(ShapeC, 1)>>]}
 
 InitObjs ==
+  IF KOnly THEN {LabelK(ShapeC, R) : R \in 1..2} \cup {LabelT(ShapeC)} \cup {[kind |-> "sum", parts |-> <<LabelK(ShapeC, 2)>>]}
+  ELSE
   {DenseObj(MaskedLabelD(ShapeC, c)) : c \in Patterns}
   \cup UNION {{SparseObj(S) : S \in SparseOf(c, AllOrders)} : c \in Patterns}
   \cup {LabelK(ShapeC, R) : R \in 1..2} \cup {LabelT(ShapeC)}
